@@ -287,7 +287,7 @@ func c16KeyPairs() fw.Result {
 		}
 	}
 	// the text tuples that collide under any "join the components with a middle" encoding: the partner must not match
-	for _, pr := range middlePairs() {
+	for _, pr := range collisionPairs() {
 		for side := 0; side < 2; side++ {
 			t1 := []any{pr[side][0], pr[side][1]}
 			t2 := []any{pr[1-side][0], pr[1-side][1]}
